@@ -35,7 +35,7 @@ def sh(cmd, **kw):
 
 
 def demo():
-    env = dict(os.environ, PYTHONPATH=os.path.join(wt, "src"), PYTHONDONTWRITEBYTECODE="1")
+    env = dict(os.environ, PYTHONPATH=os.path.join(wt, "src") + ":/verif/vendor", PYTHONDONTWRITEBYTECODE="1")
     r = sh(["/venv/bin/python", os.path.join(d, "demo.py")], env=env, cwd=wt, timeout=600)
     return r.returncode, (r.stdout + r.stderr)[-400:]
 
